@@ -46,6 +46,34 @@ class StepBudgetExceeded(BaseException):
     pass
 
 
+class CpuGuard:
+    """interrupts a decode that has burnt CPU_BUDGET_S seconds of CPU time outside byte-code (regex back-tracking
+    checks for pending signals, as do most long C loops): a real ITIMER_VIRTUAL whose handler raises
+    StepBudgetExceeded.  CPU time, not wall time: an overloaded machine does not trip it."""
+
+    def __enter__(self):
+        import signal
+        self.ok = False
+        try:
+            self.prev = signal.signal(signal.SIGVTALRM, self._fire)
+            world._o_setitimer(signal.ITIMER_VIRTUAL, CPU_BUDGET_S)
+            self.ok = True
+        except (ValueError, OSError, AttributeError):
+            pass                        # not the main thread / no such timer: the post-hoc CPU check remains
+        return self
+
+    @staticmethod
+    def _fire(signum, frame):
+        raise StepBudgetExceeded("more than %d s of CPU time" % CPU_BUDGET_S)
+
+    def __exit__(self, *exc):
+        import signal
+        if self.ok:
+            world._o_setitimer(signal.ITIMER_VIRTUAL, 0)
+            signal.signal(signal.SIGVTALRM, self.prev if self.prev is not None else signal.SIG_DFL)
+        return False
+
+
 class Steps:
     """deterministic step counter over repository code (python 3.12 sys.monitoring)"""
     TOOL = 3
@@ -318,7 +346,8 @@ def execute(plan):
                                             "-l": ["-l"], "-n": ["-n"], "--plid": ["--plid", "%08X" % r["plid"]],
                                             "--src": ["--src", ps[0]["ascii"][:2] if ps else "BD"]}[cli] + plan["opts"]
                 t_cpu = time.process_time()
-                res = w.run(argv, stdout_encoding=plan.get("stdout_encoding", "utf-8"))
+                with CpuGuard():
+                    res = w.run(argv, stdout_encoding=plan.get("stdout_encoding", "utf-8"))
                 cpu = time.process_time() - t_cpu
                 max_cpu = max(max_cpu, cpu)
                 if cpu > CPU_BUDGET_S:
@@ -401,7 +430,8 @@ def execute(plan):
                 po = None
                 try:
                     try:
-                        eid, js = pt.parsePEL(DataStream(bad, byte_order="big", is_signed=False), cfg, False)
+                        with CpuGuard():
+                            eid, js = pt.parsePEL(DataStream(bad, byte_order="big", is_signed=False), cfg, False)
                         po = "doc" if js else "empty"
                         if is_prefix and js:
                             vio.append(V("prefix-decoded", "parsePEL decoded a %d-byte proper prefix of a %d-byte PEL (-O=%s)" % (len(bad), len(data), opt == "O1"), f))
